@@ -209,7 +209,9 @@ def cmp_val(m, i, diffs, path, numeric_kinds_loose=False):
         if mk == "i" and ik == "i":
             if m[1] != i[1]:
                 diffs.append("%s: int %r vs %r" % (path, m[1], i[1]))
-        elif not close(m[1], i[1]):
+        elif not close(m[1], i[1], REL, 1e-13):
+            # (absolute 1e-13: the model's binary64 reciprocal and NumPy's differ in the last bit now and then, and a
+            # written cancellation such as S[0] / S[0] - 1 turns that bit into 1.1e-16 against 0.0)
             diffs.append("%s: number %r vs %r" % (path, m[1], i[1]))
         return
     if mk == "sym" and ik in ("i", "f", "c") and numeric_kinds_loose:
